@@ -86,6 +86,13 @@ structure RewardObs where
   pool : Nat
   denom : String
   pending : Int     -- raw Dec
+  debt : Int        -- raw Dec
+deriving Repr, Inhabited
+
+structure RewardPoolObs where
+  pool : Nat
+  denom : String
+  acc : Int         -- raw Dec
 deriving Repr, Inhabited
 
 structure SpotOrderObs where
@@ -130,6 +137,7 @@ structure Snapshot where
   perpOpenCount : Int := 0
   accounted : List AccountedObs := []
   rewards : List RewardObs := []
+  rewardPools : List RewardPoolObs := []
   spotOrders : List SpotOrderObs := []
   perpOrders : List PerpOrderObs := []
 deriving Inhabited
@@ -198,7 +206,9 @@ def parse (o : Json) : Snapshot :=
     perpOpenCount := jI (f pp "openCount")
     accounted := (jA (f o "accounted")).map fun a => { id := jN (f a "id"), total := pairList (f a "total"), nonAmm := pairList (f a "nonAmm") }
     rewards := (jA (f (f o "masterchef") "users")).map fun u =>
-      { user := jS (f u "user"), pool := jN (f u "pool"), denom := jS (f u "denom"), pending := jI (f u "pending") }
+      { user := jS (f u "user"), pool := jN (f u "pool"), denom := jS (f u "denom"), pending := jI (f u "pending"), debt := jI (f u "debt") }
+    rewardPools := (jA (f (f o "masterchef") "pools")).map fun p =>
+      { pool := jN (f p "pool"), denom := jS (f p "denom"), acc := jI (f p "acc") }
     spotOrders := (jA (f ts "spot")).map fun s =>
       { id := jN (f s "id"), owner := jS (f s "owner"), typ := jI (f s "type"), denom := jS (nth (f s "amount") 0),
         amount := jI (nth (f s "amount") 1), escrow := jS (f s "escrow") }
